@@ -357,8 +357,8 @@ def exactness(cx, L):
     cur = cursor.ref
     start = init(cur)                                   # static_cast<const uint8_t*>(data)
     end_txt = nows(calls[0].kids[3].text)               # data_ + size   or a local holding it
-    end_ok = end_txt in (cur + '+' + size, size + '+' + cur) or init(end_txt) in (cur + '+' + size, size + '+' + cur,
-                                                                                   start + '+' + size)
+    end_ok = end_txt in (cur + '+' + size, size + '+' + cur, start + '+' + size) or init(end_txt) in (cur + '+' + size, size + '+' + cur,
+                                                                                                       start + '+' + size)
     L.check(end_ok, 'C07.exactness', f.key() + '|end', f.site(calls[0]),
             'the end pointer handed to the decoder must be start + size', calls[0].text)
 
@@ -390,22 +390,39 @@ def exactness(cx, L):
                 return 'exact' if op == '==' else ('lower-bound' if op == '>=' else None)
         return None
 
-    if len(rets) == 1 and rets[0].kids:
-        e = rets[0].kids[0].strip()
-        if e.kind == 'BinaryOperator' and e.opcode == '&&':
-            sides = [e.kids[0].strip(), e.kids[1].strip()]
-            succ = [x for x in sides if (x.kind == 'DeclRefExpr' and x.ref in vars_ and
-                                        'message_impl<T>::templatedecode<E>' in (init(x.ref) or '')) or x is calls[0]]
-            tests = [all_consumed(x) for x in sides]
-            if succ and 'exact' in tests:
-                ok = True
-            elif succ and 'lower-bound' in tests:
-                # cursor >= end is "all consumed" only under the invariant cursor <= end, which is what the
-                # guard-dominance obligations of this run establish
-                inv = not any(o.status == 'bad' and o.rule.startswith('F6cxx.cursor-write') for o in L.obligations)
-                ok = inv
+    # every `return` that can yield true: what is known there (dominating guards) together with the conjuncts of the returned
+    # expression must contain the success of the decoder and an all-consumed test (`if (!ok) return false; return n == size;`
+    # and `return ok && n == size;` are the same thing)
+    from ..cxxlib import guards_at, atomise
+
+    def is_success(x):
+        x = x.strip()
+        return (x.kind == 'DeclRefExpr' and x.ref in vars_ and 'message_impl<T>::templatedecode<E>' in (init(x.ref) or '')) or x is calls[0] \
+            or x is calls[0].strip()
+    verdicts = []
+    for r in rets:
+        if not r.kids:
+            continue
+        v = r.kids[0].strip()
+        if v.kind == 'CXXBoolLiteralExpr' and v.value is False:
+            continue
+        atoms = atomise([(v, True, 'returned')]) + guards_at(r, f.body)
+        succ = any(pol is True and is_success(a) for a, pol, _ in atoms)
+        tests = [all_consumed(a) for a, pol, _ in atoms if pol is True]
+        if succ and 'exact' in tests:
+            verdicts.append(True)
+        elif succ and 'lower-bound' in tests:
+            # cursor >= end is "all consumed" only under the invariant cursor <= end, which is what the
+            # guard-dominance obligations of this run establish
+            inv = not any(o.status == 'bad' and o.rule.startswith('F6cxx.cursor-write') for o in L.obligations)
+            verdicts.append(inv)
+            if not inv:
                 why = 'the test is only a lower bound (cursor >= end) and the invariant cursor <= end is not ' \
                       'established: a cursor write is unguarded'
+        else:
+            verdicts.append(False)
+            detail = r.text
+    ok = bool(verdicts) and all(verdicts)
     L.check(ok, 'C07.exactness', f.key(), f.site(),
             'message::decode<E>(data, size) must return true only if the decoder succeeded and exactly `size` bytes '
             'were consumed (%s)' % why, detail)
